@@ -141,7 +141,7 @@ func TestVerifC06(t *testing.T) {
 	// short non-zero tail) have an exact O(1) oracle: zero blocks keep the GHASH state at zero.
 	if asmDetected {
 		withAsm(true, func() {
-			big := hk.ZeroMap(1<<32+4096, true)
+			big := hk.ZeroMap(1<<32+1<<18, true)
 			if big == nil {
 				r.Inconclusive("c06: cannot map 4 GiB for the giant nonces")
 				return
